@@ -457,4 +457,233 @@ Proof.
     apply Exists_exists. exists r. split; [apply zrange_In; lia|unfold idx_ok; lia].
 Qed.
 
+(* ---------- matrices as tables ---------- *)
+
+Lemma tabulate {A} (l : list A) (d : A) :
+  l = map (fun i => nth (Z.to_nat i) l d) (zrange 0 (Z.of_nat (length l))).
+Proof.
+  apply (nth_ext _ _ d d).
+  - rewrite map_length, zrange_length. lia.
+  - intros n Hn.
+    set (F := fun i => nth (Z.to_nat i) l d).
+    rewrite (nth_indep (map F (zrange 0 (Z.of_nat (length l)))) d (F 0)) by (rewrite map_length, zrange_length; lia).
+    rewrite map_nth. unfold zrange. rewrite zrange_aux_nth by lia.
+    unfold F. replace (Z.to_nat (0 + Z.of_nat n)) with n by lia. reflexivity.
+Qed.
+
+Lemma table_of_cells h w (rows : rows_t) (f : Z -> Z -> option C) :
+  wf h w rows ->
+  (forall r c, 0 <= r < h -> 0 <= c < w -> cell rows r c = f r c) ->
+  concat rows = flat_map (fun r => map (fun c => f r c) (zrange 0 w)) (zrange 0 h).
+Proof.
+  intros (Hh & Hw & Hl & Hf) Hcells.
+  rewrite flat_map_concat_map. f_equal.
+  rewrite (tabulate rows []) at 1. rewrite Hl. rewrite Z2Nat.id by lia.
+  apply map_ext_in. intros r Hr. apply zrange_In in Hr.
+  assert (Lr : length (nth (Z.to_nat r) rows []) = Z.to_nat w).
+  { rewrite Forall_forall in Hf. apply Hf. apply nth_In. lia. }
+  rewrite (tabulate (nth (Z.to_nat r) rows []) None) at 1. rewrite Lr. rewrite Z2Nat.id by lia.
+  apply map_ext_in. intros c Hc. apply zrange_In in Hc.
+  apply (Hcells r c); lia.
+Qed.
+
+Lemma wf_map h w (g : option C -> option C) rows : wf h w rows -> wf h w (map (map g) rows).
+Proof.
+  intros (Hh & Hw & Hl & Hf). repeat split; try assumption.
+  - rewrite map_length. exact Hl.
+  - apply Forall_forall. intros r Hr. apply in_map_iff in Hr. destruct Hr as [x [Ex Hx]]. subst r.
+    rewrite map_length. rewrite Forall_forall in Hf. apply Hf. exact Hx.
+Qed.
+
+Lemma cell_map h w (g : option C -> option C) rows r c :
+  wf h w rows -> 0 <= r < h -> 0 <= c < w -> cell (map (map g) rows) r c = g (cell rows r c).
+Proof.
+  intros Hwf Hr Hc. unfold cell.
+  change (@nil (option C)) with (map g (@nil (option C))) at 1. rewrite map_nth.
+  assert (Lr : length (nth (Z.to_nat r) rows []) = Z.to_nat w) by (apply (wf_row_length h w); [exact Hwf|lia]).
+  rewrite (nth_indep _ None (g None)) by (rewrite map_length; lia).
+  rewrite map_nth. reflexivity.
+Qed.
+
+Lemma map_flat_map {A B D} (g : B -> D) (f : A -> list B) l :
+  map g (flat_map f l) = flat_map (fun x => map g (f x)) l.
+Proof. induction l as [|x l IH]; cbn [flat_map map]; [reflexivity|]. rewrite map_app, IH. reflexivity. Qed.
+
+(* ---------- the machine ---------- *)
+
+Definition set_tx (m : mode) (c : C) : C := std (as_raw_color C conv m c).
+Definition black_tx : C := std black.
+
+Lemma run_app cs1 : forall cs2 st st',
+  run cs1 st = (st', true) -> run (cs1 ++ cs2) st = run cs2 st'.
+Proof.
+  induction cs1 as [|c cs1 IH]; intros cs2 st st' H; cbn [run app] in *.
+  - inversion H. reflexivity.
+  - destruct (exec c st) as [st1|]; [|discriminate]. apply IH. exact H.
+Qed.
+
+(* the registers after `colour ; stage-operand` *)
+Definition stage_regs (s : stage) (st : state) : state :=
+  mkState (unit_mode st) (reg_first (s_rows s)) (reg_last (s_rows s)) (reg_first (s_cols s)) (reg_last (s_cols s))
+          (first_zone st) (last_zone st) OpMatrix (name_l st) (name_kind st) (s_colour s)
+          (default st) (matrix st) (out st).
+
+Lemma run_stage_operand (s : stage) rest st :
+  run (CColour (s_colour s) :: stage_operand s ++ rest) st = run rest (stage_regs s st).
+Proof. destruct s as [[[a b]|] [[c d]|] [|] col]; reflexivity. Qed.
+
+Lemma exec_color_stage (s : stage) st m :
+  matrix st = Some m ->
+  exec CColor (stage_regs s st) =
+  match overlay_color m (reg_first (s_rows s)) (reg_last (s_rows s)) (reg_first (s_cols s)) (reg_last (s_cols s)) (s_colour s) with
+  | None => None
+  | Some m' => Some (set_matrix_reg C (stage_regs s st) (Some m'))
+  end.
+Proof. intros H. cbn. unfold color_matrix. cbn. rewrite H. reflexivity. Qed.
+
+Lemma stage_ok_guard h w (s : stage) t b l r :
+  stage_ok C h w s = true ->
+  clause_range (s_rows s) h = (t, b) -> clause_range (s_cols s) w = (l, r) ->
+  b < t \/ r < l \/ (0 <= t /\ b < h /\ 0 <= l /\ r < w).
+Proof.
+  unfold stage_ok, range_empty. intros H Er Ec. rewrite Er, Ec in H. cbn [fst snd] in H.
+  apply orb_true_iff in H. destruct H as [H|H].
+  - apply orb_true_iff in H. destruct H as [H|H]; apply Z.ltb_lt in H; lia.
+  - repeat (apply andb_true_iff in H; destruct H as [H ?]).
+    apply Z.leb_le in H. apply Z.ltb_lt in H0. apply Z.leb_le in H1. apply Z.ltb_lt in H2. lia.
+Qed.
+
+Lemma hits_in_range n a b x : 0 <= a -> 0 <= x < n ->
+  (hits n (zrange a (b + 1)) x <-> a <= x <= b).
+Proof.
+  intros Ha Hx. split.
+  - intros [y [Hy Ey]]. apply zrange_In in Hy. unfold wrap in Ey.
+    destruct (y <? 0) eqn:E; [apply Z.ltb_lt in E; lia|]. lia.
+  - intros H. exists x. split; [apply zrange_In; lia|]. unfold wrap.
+    destruct (x <? 0) eqn:E; [apply Z.ltb_lt in E; lia|reflexivity].
+Qed.
+
+Lemma covered_iff h w t b l r rr cc :
+  (b < t \/ r < l \/ (0 <= t /\ b < h /\ 0 <= l /\ r < w)) -> 0 <= rr < h -> 0 <= cc < w ->
+  (hits h (zrange t (b + 1)) rr /\ hits w (zrange l (r + 1)) cc <->
+   in_range (t, b) rr && in_range (l, r) cc = true).
+Proof.
+  intros G Hr Hc. unfold in_range. cbn [fst snd].
+  rewrite !andb_true_iff, !Z.leb_le.
+  destruct G as [G|[G|G]].
+  - split.
+    + intros [[y [Hy _]] _]. apply zrange_In in Hy. lia.
+    + lia.
+  - split.
+    + intros [_ [y [Hy _]]]. apply zrange_In in Hy. lia.
+    + lia.
+  - rewrite (hits_in_range h t b rr) by lia. rewrite (hits_in_range w l r cc) by lia. lia.
+Qed.
+
+Definition outside_eq (st st' : state) : Prop :=
+  unit_mode st' = unit_mode st /\ name_l st' = name_l st /\ name_kind st' = name_kind st /\
+  default st' = default st /\ out st' = out st.
+
+(* The stages of a block, any number of them: the matrix register ends up holding, at
+   every cell, the colour of the last stage that covers it, else what it held before. *)
+Lemma run_stages h w (ss : list stage) : forall st m rest,
+  matrix st = Some m -> m_height m = h -> m_width m = w -> wf h w (m_rows m) ->
+  forallb (stage_ok C h w) ss = true ->
+  exists st' m', run (flat_map compile_stage ss ++ rest) st = run rest st' /\
+    outside_eq st st' /\ matrix st' = Some m' /\ m_height m' = h /\ m_width m' = w /\ wf h w (m_rows m') /\
+    forall r c, 0 <= r < h -> 0 <= c < w ->
+      cell (m_rows m') r c =
+      match last_covering C h w ss r c with Some x => Some x | None => cell (m_rows m) r c end.
+Proof.
+  induction ss as [|s ss IH]; intros st m rest Hm Hh Hw Hwf Hok.
+  - exists st, m. cbn [flat_map app]. split; [reflexivity|]. split; [repeat split; reflexivity|].
+    repeat (split; [assumption|]). intros r c _ _. reflexivity.
+  - cbn [forallb] in Hok. apply andb_true_iff in Hok. destruct Hok as [Hs Hss].
+    cbn [flat_map]. unfold compile_stage at 1. rewrite <- app_assoc. rewrite <- app_comm_cons.
+    rewrite <- app_assoc. rewrite run_stage_operand.
+    cbn [app run]. rewrite (exec_color_stage s st m Hm).
+    destruct (clause_range (s_rows s) h) as [t b] eqn:Er.
+    destruct (clause_range (s_cols s) w) as [l r0] eqn:Ec.
+    pose proof (stage_ok_guard h w s t b l r0 Hs Er Ec) as G.
+    destruct Hwf as (Hh0 & Hw0 & Hl & Hf).
+    assert (Hwf : wf (m_height m) (m_width m) (m_rows m)) by (rewrite Hh, Hw; repeat split; assumption).
+    destruct (overlay_ok m (reg_first (s_rows s)) (reg_last (s_rows s)) (reg_first (s_cols s)) (reg_last (s_cols s))
+                (s_colour s) t b l r0 Hwf) as (m1 & E1 & H1 & W1 & Wf1 & C1).
+    { rewrite norm_clause, Hh. exact Er. }
+    { rewrite norm_clause, Hw. exact Ec. }
+    { rewrite Hh, Hw. destruct G as [G|[G|G]]; [left; exact G|right; left; exact G|right; right; lia]. }
+    rewrite E1.
+    rewrite Hh in H1. rewrite Hw in W1. rewrite Hh, Hw in Wf1. rewrite Hh, Hw in C1.
+    destruct (IH (set_matrix_reg C (stage_regs s st) (Some m1)) m1 rest eq_refl H1 W1 Wf1 Hss)
+      as (st' & m' & Erun & Hout & Hm' & Hh' & Hw' & Wf' & C').
+    exists st', m'. split; [exact Erun|]. split.
+    { destruct Hout as (O1 & O2 & O3 & O4 & O5). repeat split; assumption. }
+    repeat (split; [assumption|]).
+    intros rr cc Hr Hc. rewrite (C' rr cc Hr Hc). cbn [last_covering].
+    destruct (last_covering C h w ss rr cc) as [x|]; [reflexivity|].
+    destruct (C1 rr cc Hr Hc) as [C1a C1b].
+    pose proof (covered_iff h w t b l r0 rr cc G Hr Hc) as Hiff.
+    unfold covers. rewrite Er, Ec.
+    destruct (in_range (t, b) rr && in_range (l, r0) cc) eqn:Ecov.
+    + apply C1a. apply Hiff. reflexivity.
+    + apply C1b. intros Hc'. apply Hiff in Hc'. discriminate.
+Qed.
+
+(* COLOR with operand MATRIX_LIGHT on a matrix light *)
+Lemma color_matrix_light_sends st m h w :
+  name_kind st = KMatrix h w -> matrix st = Some m ->
+  exists st', color_matrix_light C std conv black st = Some st' /\
+    unit_mode st' = unit_mode st /\ default st' = default st /\
+    out st' = out st ++
+      [EMatrix (name_l st) (m_height m) (m_width m)
+         (get_colors C std (find_replace_none C (as_raw_matrix C std conv (unit_mode st) m)
+                              (match default st with Some d => d | None => black end)))].
+Proof.
+  intros Hk Hm. unfold color_matrix_light. rewrite Hk, Hm.
+  destruct (unit_mode st) eqn:Em; eexists; (split; [reflexivity|]); cbn; rewrite ?Em;
+    repeat split; try reflexivity; destruct m; reflexivity.
+Qed.
+
+Lemma as_raw_matrix_wf h w mo (m : cmatrix) :
+  wf h w (m_rows m) -> wf h w (m_rows (as_raw_matrix C std conv mo m)).
+Proof.
+  intros Hwf. unfold as_raw_matrix. destruct mo; cbn [mat_map m_rows]; try apply wf_map; exact Hwf.
+Qed.
+
+Lemma as_raw_matrix_cell h w mo (m : cmatrix) r c :
+  wf h w (m_rows m) -> 0 <= r < h -> 0 <= c < w ->
+  cell (m_rows (as_raw_matrix C std conv mo m)) r c = option_map (as_raw_color C conv mo) (cell (m_rows m) r c).
+Proof.
+  intros Hwf Hr Hc. unfold as_raw_matrix. rewrite as_raw_matrix_unrounded.
+  destruct mo; cbn [mat_map m_rows as_raw_color].
+  - apply (cell_map h w); assumption.
+  - destruct (cell (m_rows m) r c); reflexivity.
+  - apply (cell_map h w); assumption.
+Qed.
+
+(* what the device receives for a matrix register whose cells are given by last_covering *)
+Lemma transmitted_matrix h w mo (m : cmatrix) (ss : list stage) (d : option C) :
+  m_height m = h -> m_width m = w -> wf h w (m_rows m) ->
+  (forall r c, 0 <= r < h -> 0 <= c < w ->
+     cell (m_rows m) r c = match last_covering C h w ss r c with Some x => Some x | None => None end) ->
+  get_colors C std (find_replace_none C (as_raw_matrix C std conv mo m) (match d with Some x => x | None => black end))
+  = map Some (spec_matrix C set_tx black_tx mo h w ss (option_map std d)).
+Proof.
+  intros Hh Hw Hwf Hcells.
+  unfold get_colors, as_list, find_replace_none, mat_map. cbn [m_rows].
+  rewrite concat_map.
+  pose proof (as_raw_matrix_wf h w mo m Hwf) as W1.
+  unfold spec_matrix. rewrite map_flat_map.
+  erewrite (table_of_cells h w).
+  2:{ apply wf_map. apply wf_map. exact W1. }
+  2:{ intros r c Hr Hc.
+      rewrite (cell_map h w) by (try apply wf_map; assumption).
+      rewrite (cell_map h w) by assumption.
+      rewrite (as_raw_matrix_cell h w mo m r c Hwf Hr Hc), (Hcells r c Hr Hc). reflexivity. }
+  apply flat_map_ext. intros r. rewrite map_map. apply map_ext. intros c.
+  unfold spec_cell, set_tx, black_tx.
+  destruct (last_covering C h w ss r c) as [x|]; cbn [option_map]; [reflexivity|].
+  destruct d; reflexivity.
+Qed.
+
 End Proofs.
